@@ -147,7 +147,7 @@ def locate_diff(bin_a, bin_b, suite, tier, unit):
 
 VALUE_TAGS = {"C02", "C03", "C04", "C05", "C06", "C10", "C11", "C12", "C16", "*"}
 
-def part(prop, tier, seed, suite=None, profiles=("prel",), diff=False, all_tags=False):
+def part(prop, tier, seed, suite=None, profiles=("prel",), diff=False, all_tags=False, extra_classes=()):
     suite = suite or prop
     bins = {p: build_seq(p) for p in profiles}
     nsh = 64
@@ -176,7 +176,9 @@ def part(prop, tier, seed, suite=None, profiles=("prel",), diff=False, all_tags=
                 samples.append({"profile": prof, "kind": r["kind"], "len": r["len"], "history|terminal": r["sample"]})
             for v in r["violations"]:
                 tags = v["tags"].split("+")
-                mine = prop in tags or "*" in tags or (all_tags and any(t in VALUE_TAGS for t in tags))
+                # extra_classes: violations about WHICH elements were delivered also break properties that are stated
+                # over "the delivered elements" (C10: delivered + remainder = source)
+                mine = prop in tags or "*" in tags or (all_tags and any(t in VALUE_TAGS for t in tags)) or v["class"] in extra_classes
                 if not mine:
                     other_tags.update(t for t in tags)
                     continue
